@@ -327,7 +327,8 @@ def run(ck):
             cases.append(dict(level="L1", inst=inst, cell=cell, exp=exp))
     fams = [dict(kernel=k, mean=m, lik=l) for k, m, l in [("rbf_ard", "constant", "gaussian"), ("matern", "linear", "gaussian"), ("rq", "constant", "fixed"),
                                                         ("sum", "constant", "gaussian"), ("prod", "linear", "fixed"), ("mtask", "constant", "mtask")]]
-    shapes = [dict(n=6, d=2), dict(n=1, d=1), dict(n=5, d=3, model_batch=[2]), dict(n=5, d=1, test_batch=[2])]
+    shapes = [dict(n=6, d=2), dict(n=1, d=1), dict(n=5, d=3, model_batch=[2]), dict(n=5, d=1, test_batch=[2]),
+              dict(n=4, d=1, ns=4)]      # as many test as training points (size-based shortcuts, e.g. of fixed-noise models)
     seeds = range(3 if thorough else 1)
     for cell in cells:
         for fi, fam in enumerate(fams):
